@@ -94,6 +94,11 @@ def pos_desc(draw, n):
         return {"k": "pscalar", "v": draw(st.integers(-n, n - 1)), "np": draw(st.booleans())}
     if k == "plist":
         v = draw(st.lists(st.integers(-n, n - 1), min_size=0, max_size=4)) if n else []
+        if n >= 2 and draw(st.integers(0, 3)) == 0:
+            # a run of consecutive positions (what an implementation may be tempted to turn into a slice), possibly counted from
+            # the end or crossing zero: [-2, -1], [-1, 0, 1], [1, 2]
+            start = draw(st.integers(-n, n - 2))
+            v = list(range(start, min(start + draw(st.integers(2, 3)), n)))
         return {"k": "plist", "v": v, "as": draw(st.sampled_from(["list", "array"]))}
     if k == "pmask":
         return {"k": "pmask", "v": draw(st.lists(st.booleans(), min_size=n, max_size=n))}
